@@ -23,19 +23,26 @@ def body(run):
     F, M = "UacpNegotiation", "UacpClientConfig"
     jobs = [
         lambda: run.tlc(F, M, M + ("_mc_quick.cfg" if q else "_mc.cfg"), timeout=3000,
-                        label="contract: InvIsolation, InvDefaultPristine, InvHelloOwn for all programs in bounds"),
-        lambda: run.tlc(F, M, M + "_gen_quick.cfg", mode="gen", count=False, timeout=3000,
-                        label="programs: 2 clients x <=1 option each from the full option list (exhaustive)"),
+                        label="contract: InvIsolation, InvDefaultPristine, InvOwnToken, InvHelloOwn for all programs in bounds"),
+        lambda: run.tlc(F, M, M + "_gen_pairs.cfg", mode="gen", count=False, timeout=3000,
+                        label="programs: client 1 [X], client 2 [Y], two option objects, full option list (exhaustive)"),
+        lambda: run.tlc(F, M, M + "_gen_shared.cfg", mode="gen", count=False, timeout=3000,
+                        label="programs: client 1 [X], client 2 [X, Y] with the SAME option object X (exhaustive)"),
         lambda: run.tlc(F, M, M + ("_sim_quick.cfg" if q else "_sim.cfg"), mode="gen", count=False, timeout=3000,
-                        label="programs: seeded samples, up to 3/4 clients x 3 options"),
-        lambda: run.tlc(F, M, M + "_dev.cfg", expect="violation", count=False,
-                        label="deviation demo: shared default Acknowledge violates InvDefaultPristine"),
+                        label="programs: seeded samples, small pool of option objects re-used by up to 3/4 clients x 3 options"),
         lambda: run.tlc(F, M, M + "_dev_iso.cfg", expect="violation", count=False,
                         label="deviation demo: shared default Acknowledge violates InvIsolation"),
+        lambda: run.tlc(F, M, M + "_dev_tok_iso.cfg", expect="violation", count=False,
+                        label="deviation demo: an option object that owns its identity token violates InvIsolation"),
         lambda: exe.__setitem__(0, run.go_build("clientcfg")),
     ]
+    if not q:
+        jobs.append(lambda: run.tlc(F, M, M + "_dev.cfg", expect="violation", count=False,
+                                    label="deviation demo: shared default Acknowledge violates InvDefaultPristine"))
+        jobs.append(lambda: run.tlc(F, M, M + "_dev_tok.cfg", expect="violation", count=False,
+                                    label="deviation demo: captured identity token violates InvOwnToken"))
     res = run.parallel(*jobs)
-    rows = res[1].rows + res[2].rows
+    rows = res[1].rows + res[2].rows + res[3].rows
     if len(rows) < 100:
         raise vf.Inconclusive("TLC emitted only %d programs" % len(rows))
     # As-is configuration = the Dev_* flags of the open entries in the findings files.  The shared
@@ -44,13 +51,13 @@ def body(run):
     # computes the as-is model's prediction for the same programs.
     known, _fixed = run.known()
     if "default-ack-object-shared-by-clients" in known:
-        progs = "".join(json.dumps({"prog": r["prog"]}) + "\n" for r in rows)
+        progs = "".join(json.dumps({"pool": r["pool"], "prog": r["prog"]}) + "\n" for r in rows)
         asis = run.tlc(F, M, M + "_asis.cfg", mode="gen", count=False, timeout=3000, files={"progs.ndjson": progs},
                        label="as-is model (Dev_SharedDefaultAck) on the same programs")
-        bykey = {json.dumps(r["prog"], sort_keys=True): r["hist"] for r in asis.rows}
+        bykey = {json.dumps([r["pool"], r["prog"]], sort_keys=True): r["hist"] for r in asis.rows}
         missing = 0
         for r in rows:
-            a = bykey.get(json.dumps(r["prog"], sort_keys=True))
+            a = bykey.get(json.dumps([r["pool"], r["prog"]], sort_keys=True))
             if a is None:
                 missing += 1
             else:
@@ -62,16 +69,21 @@ def body(run):
     if len(results) != len(rows):
         raise vf.Inconclusive("harness returned %d results for %d programs" % (len(results), len(rows)))
     run.absorb(results)
-    run.cov["programs_exhaustive"] = len(res[1].rows)
-    run.cov["programs_sampled"] = len(res[2].rows)
-    run.cov["rule"] = ("one case per TLC program (sequence of NewClient constructions with their option lists, then all "
-                       "Hellos); class = the option names per construction; after every construction 3 observations "
-                       "(every existing client, package default, option-less later client) are compared field by field")
+    run.cov["programs_two_objects"] = len(res[1].rows)
+    run.cov["programs_shared_object"] = len(res[2].rows)
+    run.cov["programs_sampled"] = len(res[3].rows)
+    run.cov["rule"] = ("one case per TLC program (pool of option objects built once, sequence of NewClient constructions "
+                       "applying them - the same object possibly to several clients -, then all Hellos); class = the option "
+                       "names per construction, * = object applied more than once; after every construction 3 observations "
+                       "(every existing client incl. its user identity token, package default, option-less later client) "
+                       "are compared field by field")
     run.assumptions += [
         "option values are two non-default values per option (table in harness/cmd/clientcfg)",
-        "observed through opcua.VerifConfig (17 scalar fields incl. the dialer's Acknowledge values) and the Hello bytes "
-        "on the wire; fields not in the snapshot (remote certificate, user identity token, state callbacks) are not compared",
-        "file-based options (CertificateFile, PrivateKeyFile, RemoteCertificateFile), RandomRequestID, Auth* and "
+        "observed through opcua.VerifConfig (17 scalar fields incl. the dialer's Acknowledge values), through the client's "
+        "uasc.SessionConfig / uasc.Config reached by reflection (user identity token type, policy id, user name / certificate / "
+        "token data, password, application name, remote certificate, user key) and the Hello bytes on the wire",
+        "two clients given the same caller-owned dialer (Dialer(d)) share that dialer by the caller's choice",
+        "file-based options (CertificateFile, PrivateKeyFile, RemoteCertificateFile), RandomRequestID and "
         "StateChanged* options are not in the alphabet",
         "programs are sequential (no concurrent constructions)",
     ]
